@@ -22,6 +22,14 @@ class MalGen(storegen.HistGen):
             return ["ref", self.rng.choice(mine)]
         return ["ref", 10**5 + self.rng.randint(0, 9)]
 
+    def carrying(self, b):
+        """the Event object handed to replace / replace_last: it may itself carry the id of an event of another
+        bucket (an object read from there), of this bucket, or one that never existed - only the addressed id counts"""
+        e = storegen.rand_ev(self.rng, self.grid)
+        if self.rng.random() < 0.5:
+            e[0] = self.any_ref(b)
+        return e
+
     def step(self):
         b = self.rng.choice(self.buckets)
         r = self.rng.random()
@@ -44,9 +52,9 @@ class MalGen(storegen.HistGen):
                     self.live[b].append(self.nrefs)
                     self.nrefs += 1
         elif r < 0.55:
-            self.ops.append(["replace", b, self.any_ref(b), storegen.rand_ev(self.rng, self.grid)])
+            self.ops.append(["replace", b, self.any_ref(b), self.carrying(b)])
         elif r < 0.67:
-            self.ops.append(["replacelast", b, storegen.rand_ev(self.rng, self.grid)])
+            self.ops.append(["replacelast", b, self.carrying(b)])
         elif r < 0.79:
             ref = self.any_ref(b)
             if ref[1] in self.live[b]:
